@@ -14,10 +14,11 @@ class Stubs:
     input of the first call returns the negated / scaled (filter), identical / scaled (amplitude),
     identical (dual threshold) output of the first call, see ``relate``."""
 
-    def __init__(self, ctx, L=0, relate=None, min_halfwaves=0):
+    def __init__(self, ctx, L=0, relate=None, min_halfwaves=0, pattern=None):
         self.ctx = ctx
         self.L = L
         self.min_halfwaves = min_halfwaves
+        self.pattern = pattern      # optional sign pattern ('+' / '-') of the FIRST filter output (enumerated choice)
         self.relate = relate        # None | ('neg',) | ('scale', a) | ('same',)
         self.filt, self.amp, self.dual = [], [], []
         st = ctx.env.CUR
@@ -69,6 +70,11 @@ class Stubs:
                 out = list(self.filt[0]['out'])
         else:
             out = fresh()
+            if self.pattern is not None and not self.filt:
+                if len(self.pattern) != n:
+                    ctx.assume(False)
+                for v, ch in zip(out, self.pattern):
+                    ctx.assume(v > 0 if ch == '+' else v <= 0)
             if self.min_halfwaves:
                 # exploration cut: with fewer closed half-waves of either kind bycycle cannot build a
                 # row (it raises) and the statement does not apply; abandon the path before the
